@@ -126,10 +126,34 @@ def _check_ports(ts, h):
     return missing
 
 
-def _solver(timeout):
-    s = z3.SolverFor("QF_BV")
+def _solver(timeout, tactic=None):
+    """tactic None: z3's QF_BV solver.  "ctx": contextual simplification before bit-blasting -- decides in seconds the
+    device-level queries in which a packet with a corrupted CRC precedes the transaction under test (the default
+    pipeline does not finish those in 900 s), and is slower on most other queries."""
+    if tactic == "ctx":
+        s = z3.Then('simplify', 'propagate-values', 'ctx-simplify', 'solve-eqs', 'simplify', 'bit-blast', 'sat').solver()
+    else:
+        s = z3.SolverFor("QF_BV")
     s.set("timeout", int(timeout * 1000))
     return s
+
+
+def _check(formula, timeout, tactic=None):
+    """returns (result string, solver); tactic "portfolio": default pipeline briefly, then "ctx", then default again"""
+    plan = [(None, timeout)]
+    if tactic == "ctx":
+        plan = [("ctx", timeout)]
+    elif tactic in ("portfolio", "ctx-first"):
+        # most queries are decided by the default pipeline in well under 20 s; the ones it cannot do are usually quick
+        # for the contextual simplifier, and vice versa
+        plan = [(None, min(20, timeout)), ("ctx", timeout / 2), (None, timeout / 2)]
+    for tac, tmo in plan:
+        s = _solver(tmo, tac)
+        s.add(formula)
+        out = str(s.check())
+        if out != "unknown":
+            break
+    return out, s
 
 
 def _model_inputs(model, h, K, consts, layer):
@@ -414,7 +438,7 @@ def run_bmc(q, prop, findings):
                 layer={k: ("fn" if callable(v) else v) for k, v in q.layer.items()})
     asserts = list(h._viols) if q.asserts is None else q.asserts
     covers = list(h._covers) if q.covers is None else q.covers
-    if getattr(q, "alive", True) and h._assumes:
+    if getattr(q, "alive", True) and h._assumes and asserts:
         # reachability witness of the environment itself: the assumptions can be met through the whole depth (otherwise
         # every assertion beyond the dead step would pass vacuously)
         r = dict(base, check="alive")
@@ -442,10 +466,8 @@ def run_bmc(q, prop, findings):
             else:
                 terms_other.append(z3.And(U.ok[t], v))
         r = dict(base, check=f"assert:{a}")
-        s = _solver(q.timeout)
-        s.add(z3.Or(*terms_other))
         t0 = time.time()
-        out = str(s.check())
+        out, s = _check(z3.Or(*terms_other), q.timeout, q.tactic)
         r["solver_s"] = round(time.time() - t0, 2)
         r["result"] = out
         if out == "unsat":
@@ -725,6 +747,8 @@ def split_queries(queries):
 
 def _worker(q, prop, findings, conn):
     import threading
+    # keep one runaway query from taking the machine down: z3 gives up ("unknown") beyond this much memory
+    z3.set_param("memory_max_size", int(os.environ.get("VERIF_MEM_MB", "9000")))
     threading.stack_size(512 * 1024 * 1024)
     box = {}
 
